@@ -119,7 +119,7 @@ type Spelling struct {
 	Unit    string // "\t" or k spaces
 	Bullets []byte // one of - * + per line (cycled if shorter)
 	Heading bool   // roots written as "# name"
-	Gaps    []int  // len n+1 (cycled/zero if shorter): 0 nothing, 1 empty line, 2 whitespace-only line
+	Gaps    []int  // len n+1 (cycled/zero if shorter): 0 nothing, 1 empty line, 2 whitespace-only line, 3 / 4 runs of two / three blank lines
 	CRLF    bool
 	NoFinal bool // no newline after the last line
 }
@@ -146,6 +146,10 @@ func Spell(d []int, names []string, sp Spelling) string {
 			lines = append(lines, "")
 		case 2:
 			lines = append(lines, " \t ")
+		case 3: // a run of two blank lines
+			lines = append(lines, "", " ")
+		case 4: // a run of three
+			lines = append(lines, "", "", "\t")
 		}
 	}
 	for i, lv := range d {
